@@ -94,9 +94,9 @@ def run(R, job):
         a, ch = core.consolidate_attrs(*mixed, **kw)
         checked += 1
         t0 = core.Tag("div", *mixed, **kw)
-        if type(a) is not dict or list(a.items()) != list(t0.attrs.items()) or len(ch) != len(kids) or any(x is not y for x, y in zip(ch, [x for x in mixed if not isinstance(x, dict)])):
+        if type(a) is not dict or list(a.items()) != list(t0.attrs.items()) or [type(v) for v in a.values()] != [type(v) for v in t0.attrs.values()] or len(ch) != len(kids) or any(x is not y for x, y in zip(ch, [x for x in mixed if not isinstance(x, dict)])):
             fails.append({"input": f"consolidate_attrs(*{mixed!r}, **{kw!r})", "observed": repr((a, ch))[:300], "expected": "attributes of the tag + non-dict args unchanged"})
-        elif not (core.Tag("div", a, *ch) == t0):
+        elif not (core.Tag("div", a, *ch) == t0) or str(core.Tag("div", a, *ch)) != str(t0):
             fails.append({"input": f"rebuild from consolidate_attrs(*{mixed!r}, **{kw!r})", "observed": str(core.Tag("div", a, *ch)), "expected": str(t0)})
         if len(samples) < 3:
             samples.append({"call": f"Tag('div', *{mixed!r}, **{kw!r})"[:200], "attrs": repr(dict(t0.attrs))[:200]})
